@@ -74,6 +74,21 @@ def main():
                 written = "int" if re.fullmatch(r"[+-]?[0-9]+", lit) else ("float" if re.fullmatch(r"[+-]?([0-9]+\.[0-9]*|\.[0-9]+|[0-9]+)([eE][+-]?[0-9]+)?", lit) else None)
                 if written and k != written:
                     c.violation("magnitude-type-written", f"the magnitude was written as {written} ({lit!r}) but came back as {k}", repl)
+    # ---------------- the same demands in a process that imported only part of the library: what a rejected input does must
+    # not depend on which unit modules happen to be loaded (a lookup that fails may not load the rest as a side effect)
+    pfree = ["zeebles", "5 zeebles", "m/zeebles^2", "km zeebles", "5 mA zeebles", ",,,", "", "m", "5", "ft", "5 ft", "mi/h", "5 °F", "m s", "5 km/s", "kg⋅m²"] + rng.sample(free, 40 if quick else 400)
+    for mods in (["si"], []):
+        pcases = [{"op": op, "s": s_, "snap": True} for s_ in pfree for op in ("parse_unit", "parse_quantity")]
+        pr = C13.parse_worker({"cases": pcases, "modules": mods or ["_parser"]})["results"]
+        for cs, x in zip(pcases, pr):
+            c.count(["partial-import", ",".join(mods), cs["op"], cs["s"][:80]], nontrivial=True)
+            repl = {"call": "Unit.parse" if cs["op"] == "parse_unit" else "Quantity.parse", "text": cs["s"][:300], "imported": ["measured"] + ["measured." + m for m in mods], "outcome": {k: v for k, v in x.items() if k in ("err", "msg", "again_same", "registry_unchanged")}}
+            if "err" in x and x["err"] not in ALLOWED:
+                c.violation(f"escapes:{x['err']}", f"{repl['call']} raised {x['err']} with only {repl['imported']} imported: {x.get('msg')}", repl)
+            if x.get("registry_unchanged") is False:
+                c.violation("registry-changed-on-reject" if "err" in x else "registry-changed-on-accept", f"parsing changed the registered names / symbols (only {repl['imported']} imported)", repl)
+            if "err" not in x and not x.get("again_same"):
+                c.violation("not-deterministic", "parsing the same text twice gave different results", repl)
     # ---------------- model = implementation on the structured inputs (kernel)
     td = C13.tables_coq(T)
     items = []
